@@ -358,6 +358,12 @@ def run(ctx, p):
             push(con.ac_status_frame(pid=0x46, only=[ac]))
             ei = rig.ac(ac).error_info
             ctx.check(ei is not None and bool(ei.code == code) and ei.description == "ER: FFFE", "error_details", detail=repr(ei))
+            # the console reports the error information again, now without a text: the latest report counts; then with the text again
+            push(con.error_frame(ac, None, pid=0x54))
+            ei = rig.ac(ac).error_info
+            ctx.check(ei is not None and bool(ei.code == code) and ei.description in (None, ""), "error_details",
+                      detail="an error information report without text did not replace the earlier text: " + repr(ei))
+            push(con.error_frame(ac, "ER: FFFE", pid=0x55))
             # another attribute changes while the error persists: code and description are still shown
             rec1 = list(rec)
             rec1[2] = (rec1[2] ^ 0x01) if g.n == 4 else (rec1[2] ^ 0x01)
